@@ -160,7 +160,11 @@ def text_of(code, obj):
     if code in GRS and k in ("hdkey", "prvkey", "electrum"):
         return "skip-grs-base58", None
     if k == "hdkey":
-        return "hwif", obj.hwif(as_private=obj.secret_exponent() is not None)
+        # two names for one serialisation: hwif and as_text (what repr() shows); the objects alternate between them
+        priv = obj.secret_exponent() is not None
+        if obj.child_index() % 2:
+            return "as_text", obj.as_text(as_private=priv)
+        return "hwif", obj.hwif(as_private=priv)
     return "as_text", obj.as_text()
 
 
